@@ -74,6 +74,13 @@ def main_for(prop):
         rep.coverage["lemma"] = ("L-cuts (vf/lemmas/Chunking.lean, checked by lean on every run): a driver that dispatches one byte at a time on the stored state (H1: obligations "
                                  "coherence/dispatch/consume) and for which OK-at-a-cut followed by re-entry is the identity (H2: return-OK sites, prologue end check) yields the same events, codes at the same "
                                  "absolute offsets and final state for every chunking.  The correspondence between the C text and that driver is what the per-program obligations establish; it is not itself a Lean statement.")
+    if prop == "C06":
+        # byte tests: for ALL transitions (symbol lists), thresholds and flag values the emitted condition denotes exactly the symbols
+        from . import cond_proofs
+        cond_proofs.run(rep, "C06")
+        spec = dict(spec)
+        spec["text"] += (" In addition, for ALL symbol lists, collapse thresholds and flag values (not per program): the condition text emitted by _generate_condition_for_transition denotes exactly the "
+                         "transition's byte symbols (pyarr: VCs from the real AST with loop invariants, discharged by z3; leaf templates by exhaustion through the C expression parser).")
     rep.coverage["bound"] = "property-level quantifier over programs is bounded to the program set (repo corpus + /verif/corpus + generated); per program all inputs, data states and chunkings are covered by the discharged obligations"
     return rep.finish(spec["text"], checker_cmd=f"./check {prop}")
 
